@@ -114,8 +114,35 @@ def quiet_stdio():
 # ---------------------------------------------------------------------------
 # sharded execution
 
+MEM_LIMIT = int(os.environ.get('VERIF_MEM_GB', '8')) << 30
+
+
+def limit_memory():
+    """Soft address-space limit for a worker: code under test that tries to build a gigantic output (an alignment misread as
+    0xb1000000 ...) then fails with MemoryError - an ordinary refusal for the oracles - instead of getting the worker
+    OOM-killed, which would leave the pool waiting for ever."""
+    try:
+        import resource
+        soft, hard = resource.getrlimit(resource.RLIMIT_AS)
+        if soft == resource.RLIM_INFINITY or soft > MEM_LIMIT:
+            resource.setrlimit(resource.RLIMIT_AS, (MEM_LIMIT, hard))
+    except Exception:
+        pass
+
+
+def unlimit_memory():
+    """preexec_fn for children that need a large virtual address space (libFuzzer)."""
+    try:
+        import resource
+        soft, hard = resource.getrlimit(resource.RLIMIT_AS)
+        resource.setrlimit(resource.RLIMIT_AS, (hard, hard))
+    except Exception:
+        pass
+
+
 def _shard_entry(args):
     fn, a = args
+    limit_memory()
     try:
         return ('ok', fn(*a))
     except HarnessError as e:
@@ -131,12 +158,20 @@ def run_shards(fn, arglist, procs=None):
     """
     procs = procs or NPROC
     jobs = [(fn, a) for a in arglist]
-    if procs <= 1 or len(jobs) <= 1:
+    if procs <= 1:
         res = [_shard_entry(j) for j in jobs]
     else:
+        # (ProcessPoolExecutor, not multiprocessing.Pool: a worker that dies - OOM kill, segfault - breaks the pool with an
+        # exception instead of leaving map() waiting for ever.  Also used for a single job so that the memory limit never applies
+        # to the parent.)
+        import concurrent.futures
+        from concurrent.futures.process import BrokenProcessPool
         ctx = multiprocessing.get_context('fork')
-        with ctx.Pool(min(procs, len(jobs))) as pool:
-            res = pool.map(_shard_entry, jobs, chunksize=1)
+        try:
+            with concurrent.futures.ProcessPoolExecutor(max_workers=max(1, min(procs, len(jobs))), mp_context=ctx) as pool:
+                res = list(pool.map(_shard_entry, jobs, chunksize=1))
+        except BrokenProcessPool as e:
+            raise HarnessError('a worker process died (killed / crashed): %s' % (e,))
     out = []
     for tag, val in res:
         if tag == 'ok':
